@@ -150,6 +150,29 @@ def check(case):
             last_iter = kind
             if kind == 'omega' and omega is not None and ar.gt(a['surplus'], omega):
                 res.fail('omega', 'omega|' + base, 'iteration ended for convergence with surplus %s > omega %s' % (a['surplus'], omega))
+            if kind == 'batch':
+                # an iteration may stop short of convergence only for sure losers: their votes plus the whole surplus stay
+                # below every other hopeful candidate (otherwise the exclusion comes "before such an end of iteration")
+                batch = []
+                for x in acts[i + 1:]:
+                    if x['tag'] == 'log' or x['tag'] == 'tie':
+                        continue
+                    if x['tag'] == 'defeat' and 'certain loser' in x['msg']:
+                        batch.append(common.named_candidate(o, x['msg']))
+                    else:
+                        break
+                cs = a['cstate']
+                hop = [c for c, s in cs.items() if s['state'] == 'hopeful']
+                out = [c for c in hop if c not in batch]
+                if not batch or None in batch:
+                    res.fail('batch-end', 'batch-end|unparsed|' + base, 'Iterate (batch) at action %d is not followed by certain-loser exclusions' % i)
+                elif out:
+                    tot = sum((cs[c]['vote'] for c in batch), Fraction(0)) + max(Fraction(0), a['surplus'])
+                    low = min(cs[c]['vote'] for c in out)
+                    if not ar.lt(tot, low):
+                        res.fail('batch-end', 'batch-end|not-sure-losers|' + base,
+                                 'iteration stopped at action %d with surplus %s for the batch %s, whose votes plus the surplus (%s) reach a remaining candidate (%s)' %
+                                 (i, a['surplus'], sorted(batch), float(tot), float(low)))
             if kind == 'stable':
                 prev = acts[i - 1] if i else None
                 if not (prev and prev['tag'] == 'log' and prev['msg'].startswith('Stable state detected')):
